@@ -41,6 +41,7 @@ theorem MwKind.apply_answers (k : MwKind) (i : Nat) (next : Handler) (hk : k.wel
   | shortFixed id v => simp [MwKind.wellBehaved] at hk
   | rename m => simpa [MwKind.apply] using hn { req with method := m } ctx
   | setParams p => simpa [MwKind.apply] using hn { req with params := p } ctx
+  | appendParam v => simpa [MwKind.apply] using hn { req with params := req.params.appended v } ctx
   | wrapResult =>
     have := hn req ctx
     simp only [MwKind.apply]
